@@ -177,6 +177,11 @@ def run(ctx):
     rl.note("loops: %s" % sorted(kinds.items()))
     rl.require(100, "loops")
 
+    # pest's validator counts PEEK / POP / DROP / slices as "progressing or failing": on an empty stack they must fail, or a
+    # repetition over them never ends (seed C11-5) — C06's instances
+    from . import c06
+    ctx.adopt(c06.run, {"R06-OPS": "R11-STACKOPS"})
+
     # progress: a terminal that succeeds on a non-empty match moves the real cursor, else `(.. ~ ANY)*`-style loops never end
     from .. import prims
     rpg = ctx.rule("R11-PROGRESS", "necessary for termination of repetitions over consuming bodies: every consuming Input primitive that reports "
